@@ -373,7 +373,12 @@ func runC20(src sim.Source, o Opts) *Result {
 		rb, err := fox.New(fox.WithMiddleware(fox.Logger()))
 		var status int
 		if err == nil {
-			_, err = rb.Handle("GET", "/*{any}", func(c fox.Context) { c.Writer().WriteHeader(status) })
+			_, err = rb.Handle("GET", "/*{any}", func(c fox.Context) {
+				if status >= 300 && status < 400 {
+					c.SetHeader("Location", "/elsewhere/"+c.Param("any")[:6])
+				}
+				c.Writer().WriteHeader(status)
+			})
 		}
 		if err != nil {
 			res.Trouble = "built-in handler router: " + err.Error()
@@ -385,6 +390,11 @@ func runC20(src sim.Source, o Opts) *Result {
 			pad := sim.Pick(src, "bpad", []int{0, 0, 100, 17000, 70000})
 			tok := fmt.Sprintf("btok%dx", q)
 			bp := world.Probe{Method: "GET", Host: "sim.invalid", Path: "/" + tok + "/" + strings.Repeat("p", pad)}
+			if pad > 0 && src.Intn("padinhost", 2) == 1 {
+				// the huge attribute is the Host (any attribute may be the one that outgrows a buffer; the ones after it
+				// still belong to the record)
+				bp = world.Probe{Method: "GET", Host: strings.Repeat("h", pad) + ".sim.invalid", Path: "/" + tok + "/"}
+			}
 			conn := world.NewConn()
 			var escaped any
 			out, cerr := world.CaptureStderr(func() {
@@ -404,8 +414,10 @@ func runC20(src sim.Source, o Opts) *Result {
 				res.fail("C20/panic", "%s: ServeHTTP panicked: %v", where, escaped)
 			case strings.Count(text, "[FOX]") != 1:
 				res.fail("C20/record-count", "%s: %d records written, expected exactly 1 (%d bytes of output)", where, strings.Count(text, "[FOX]"), len(text))
-			case !strings.Contains(text, tok) || !strings.Contains(squeezed, fmt.Sprintf("status=%dmethod=GEThost=sim.invalidpath=/%s/", status, tok)):
+			case !strings.Contains(text, tok) || !strings.Contains(squeezed, fmt.Sprintf("status=%dmethod=GEThost=%spath=%s", status, bp.Host, bp.Path)):
 				res.fail("C20/request-attrs", "%s: the record lacks the request's own status, method, host or path: %.300q", where, text)
+			case status >= 300 && status < 400 && !strings.Contains(squeezed, "location=/elsewhere/"+tok[:5]):
+				res.fail("C20/location", "%s: the 3xx record does not carry the Location header: %.200q ... %.200q", where, text, text[max(0, len(text)-200):])
 			default:
 				for o := 0; o < q; o++ {
 					if strings.Contains(text, fmt.Sprintf("btok%dx", o)) {
